@@ -414,6 +414,7 @@ type expect struct {
 	hasLabel  bool
 	fileKey   []byte
 	lenient   bool // statement prescribes nothing from here: only termination + error-or-valid result
+	noSuccess bool // ... except that the conversation can no longer end in success (a file-key message was repeated)
 	errAcked  bool
 	processed int // number of messages the client is expected to consume
 }
@@ -467,7 +468,20 @@ func runModel(p *Plan, c *core.Ctx) *expect {
 				return abort()
 			}
 			if m.BodyLen == 0 {
-				e.lenient = true // a file-key message without a key: nothing prescribed
+				// a file-key message without a key: whether it is refused or acknowledged is not prescribed. But it
+				// IS a file-key message: another one after it is a repetition, which is an error either way.
+				e.lenient = true
+				if e.fileKey != nil {
+					e.noSuccess = true
+				}
+				for _, later := range p.Msgs[i+1 : n] {
+					if later.Kind == "filekey" && len(later.Args) == 1 && later.Args[0] == "0" {
+						e.noSuccess = true
+					}
+					if later.Kind == "done" || later.Kind == "error" || later.Kind == "raw" {
+						break
+					}
+				}
 				return e
 			}
 			if e.fileKey != nil {
@@ -852,6 +866,9 @@ func (en Engine) converse(p0 *Plan, c *core.Ctx) (verdict *core.Verdict) {
 	}
 
 	// ---- final result ----
+	if exp.lenient && exp.noSuccess && gotErr == nil && (len(gotKey) > 0 || decOK) {
+		return core.Fail("C16.repeated_file_key_accepted", "the plugin sent a file-key message without a key and then another file-key message: a repeated file key message is an error, but the client reported success (key of %d bytes); machine %s, %d messages", len(gotKey), p.Machine, len(p.Msgs))
+	}
 	if exp.lenient {
 		c.Stats.Inc("probe.lenient_tail")
 		return nil
